@@ -1,0 +1,86 @@
+//go:build verif
+// +build verif
+
+package flatecut
+
+// Exported wrappers around unexported functions and tables, for the /verif
+// correspondence check (property C16). Compiled only with -tags verif.
+
+// VerifTables returns copies of the package-level tables.
+func VerifTables() (codeOrder_ [19]uint32, lBases_ [32]int32, lExtras_ [32]uint32, dBases_ [32]int32, dExtras_ [32]uint32) {
+	return codeOrder, lBases, lExtras, dBases, dExtras
+}
+
+// VerifHuffman is the result of huffman.construct on a zero huffman value.
+type VerifHuffman struct {
+	Err          error
+	EndCodeBits  uint32
+	EndCodeNBits uint32
+	Counts       [maxCodeBits + 1]uint32
+	Symbols      [maxNumCodes]int32
+	LookUpTable  [256]uint32
+}
+
+// VerifConstruct runs huffman.construct(lengths) on a fresh huffman.
+func VerifConstruct(lengths []uint32) VerifHuffman {
+	h := &huffman{}
+	ecb, ecn, err := h.construct(append([]uint32(nil), lengths...))
+	return VerifHuffman{
+		Err:          err,
+		EndCodeBits:  ecb,
+		EndCodeNBits: ecn,
+		Counts:       h.counts,
+		Symbols:      h.symbols,
+		LookUpTable:  h.lookUpTable,
+	}
+}
+
+// VerifBits is the cursor part of a bitstream (everything but the bytes).
+type VerifBits struct {
+	Index int
+	Bits  uint64
+	NBits uint32
+}
+
+func verifStream(data []byte, in VerifBits) *bitstream {
+	return &bitstream{
+		bytes: append([]byte(nil), data...),
+		index: in.Index,
+		bits:  in.Bits,
+		nBits: in.NBits,
+	}
+}
+
+func verifCursor(b *bitstream) VerifBits {
+	return VerifBits{Index: b.index, Bits: b.bits, NBits: b.nBits}
+}
+
+// VerifDecode constructs a fresh huffman from lengths and runs huffman.decode
+// from the given cursor over data.
+func VerifDecode(lengths []uint32, data []byte, in VerifBits) (int32, VerifBits, error) {
+	h := &huffman{}
+	if _, _, err := h.construct(append([]uint32(nil), lengths...)); err != nil {
+		return 0, VerifBits{}, err
+	}
+	b := verifStream(data, in)
+	sym := h.decode(b)
+	return sym, verifCursor(b), nil
+}
+
+// VerifSlowDecode is VerifDecode for huffman.slowDecode.
+func VerifSlowDecode(lengths []uint32, data []byte, in VerifBits) (int32, VerifBits, error) {
+	h := &huffman{}
+	if _, _, err := h.construct(append([]uint32(nil), lengths...)); err != nil {
+		return 0, VerifBits{}, err
+	}
+	b := verifStream(data, in)
+	sym := h.slowDecode(b)
+	return sym, verifCursor(b), nil
+}
+
+// VerifTake runs bitstream.take(nBits) from the given cursor over data.
+func VerifTake(data []byte, in VerifBits, nBits uint32) (int32, VerifBits) {
+	b := verifStream(data, in)
+	ret := b.take(nBits)
+	return ret, verifCursor(b)
+}
